@@ -6,6 +6,7 @@ from .mir import short
 def run(check, F, rule, entries, table, stop=(), scope=None, floor_sites=0, floor_bodies=0):
     """table: {site key: [entry...]} with entry = dict(tag, n, why, scope=None|set, when=None|callable)
     Each entry discharges up to `n` sites having that key (in order of appearance)."""
+    panics.FACTS = F
     missing = [e for e in entries if e not in F.bodies]
     for e in missing:
         check.fail(rule, "entry:" + e, "obligation not established: entry point %s not found" % e)
@@ -15,7 +16,7 @@ def run(check, F, rule, entries, table, stop=(), scope=None, floor_sites=0, floo
     nb = 0
     for p in reach:
         b = F.bodies[p]
-        if b.light or p in stop:
+        if b.light:
             continue
         nb += 1
         sites.extend(panics.sites_of(b))
